@@ -1,6 +1,5 @@
 // ASSUMED CONTRACTS for the client pub/sub streams: the framed halves of a QUIC stream, codecs / compression as traits,
 // std::time::Instant.
-pub mod anyhow { #[verifier::external_body] pub struct Error { _p: u8 } }
 
 // ---- std::time::Instant ----
 #[verifier::external_body] #[derive(Clone, Copy)] pub struct Instant { _p: u64 }
@@ -72,35 +71,10 @@ impl ReadHalf {
 }
 #[verifier::external_body] pub struct WriteError { _p: u8 }
 
-// ---- selium_std traits as spec traits (R13: trait objects carry the trait's contract) ----
-pub trait VMessageEncoder<Item> {
-    spec fn enc(&self, item: Item) -> Option<Seq<u8>>;          // None: the encoder refuses the item
-    fn encode(&self, item: Item) -> (r: core::result::Result<Bytes, anyhow::Error>)
-        ensures r is Ok <==> self.enc(item) is Some, r is Ok ==> r->Ok_0@ == self.enc(item)->Some_0;
-}
-pub trait VMessageDecoder<T> {
-    spec fn dec(&self, bytes: Seq<u8>) -> Option<T>;
-    fn decode(&self, buffer: &mut BytesMut) -> (r: core::result::Result<T, anyhow::Error>)
-        ensures r is Ok <==> self.dec(old(buffer)@) is Some, r is Ok ==> r->Ok_0 == self.dec(old(buffer)@)->Some_0;
-}
-// Comp = Arc<dyn Compress + Send + Sync>, Decomp = Arc<dyn Decompress + Send + Sync>
-#[verifier::external_body] pub struct Comp { _p: u8 }
-#[verifier::external_body] pub struct Decomp { _p: u8 }
-impl Comp {
-    pub uninterp spec fn comp(&self, input: Seq<u8>) -> Option<Seq<u8>>;
-    #[verifier::external_body] pub fn compress(&self, input: Bytes) -> (r: core::result::Result<Bytes, anyhow::Error>)
-        ensures r is Ok <==> self.comp(input@) is Some, r is Ok ==> r->Ok_0@ == self.comp(input@)->Some_0 { unimplemented!() }
-}
-impl Decomp {
-    pub uninterp spec fn decomp(&self, input: Seq<u8>) -> Option<Seq<u8>>;
-    #[verifier::external_body] pub fn decompress(&self, input: Bytes) -> (r: core::result::Result<Bytes, anyhow::Error>)
-        ensures r is Ok <==> self.decomp(input@) is Some, r is Ok ==> r->Ok_0@ == self.decomp(input@)->Some_0 { unimplemented!() }
-}
 // opaque
 #[verifier::external_body] pub struct Client { _p: u8 }
 #[verifier::external_body] pub struct PublisherPayload { _p: u8 }
 #[verifier::external_body] pub struct SubscriberPayload { _p: u8 }
 #[verifier::external_body] pub fn vx_vec_take_all<T>(v: &mut Vec<T>) -> (r: Vec<T>) ensures r@ == old(v)@, final(v)@ == Seq::<T>::empty(), r@.len() <= usize::MAX { unimplemented!() }
-#[verifier::external_body] pub fn bytesmut_with_capacity(n: usize) -> (r: BytesMut) requires n <= alloc_budget() ensures r@ == Seq::<u8>::empty() { unimplemented!() }
 // <[T]>::reverse reached through Vec's DerefMut
 #[verifier::external_body] pub fn vx_vec_reverse<T>(v: &mut Vec<T>) ensures final(v)@ == old(v)@.reverse() { v.reverse() }
